@@ -3,7 +3,8 @@
 spec/StoreMigration.tla: a database = (schema version, v1 table STORE.HEIGHT_RANGES, table STORE.RANGES);
   Open = version check + Migrate12 + Migrate23.
   MC:  every version 1..5 x stored x sampled sets over 1..N (v1: no sampled; v2 with / without the
-       accepted-ranges row; pruned empty or complement), opened twice; invariants MigrationPreserves,
+       accepted-ranges row; pruned empty or complement; versions 4, 5 with all / some / none of today's
+       tables and with / without identity), opened twice; invariants MigrationPreserves,
        NewerRefused, action property Idempotent.
   ->B: Gen_StoreMigration prints each initial database with the outcome the spec demands; h-redb
        writes that database with raw redb calls in the old table layout (real headers included),
@@ -28,7 +29,8 @@ ENTRIES = {
         "design_ref": "7 C23",
         "note": "The v1 layout (row per range, keyed by row index or by first height) is reconstructed from what "
                 "migrate_v1_to_v2 reads, the original v1 writer is not in the repository. Newer-version databases "
-                "are given the v3 layout. Pruned ranges, the stored schema version and left-over old keys are "
+                "are given the v3 layout, a partial one without identity, or only the schema-version table; a "
+                "refused open must leave the complete table list and all table contents as they were. Pruned ranges, the stored schema version and left-over old keys are "
                 "compared as drift only. Exhaustive in the small scope.",
         "technique": "TLA+ spec + TLC exhaustive case generation replayed into real redb databases",
     },
@@ -52,9 +54,11 @@ def run(ck):
     ck.cov["exhaustive"] = True
     ck.cov["rule"] = ("one evaluation = one generated database (version, stored, sampled, pruned, accepted-row "
                       "present) under one embedding (base 0 / 2^40; v1 additionally two row-key styles), opened "
-                      "twice; non-trivial = stored set of >= 2 heights or non-empty sampled set.")
+                      "twice; non-trivial = stored set of >= 2 heights, non-empty sampled set, or a newer-version "
+                      "database that lacks some of today's tables.")
     ck.assumptions += ["v1 rows are stored in range order (key = row index or first height)",
-                       "databases of versions 4 and 5 use the v3 table layout"]
+                       "databases of versions 4 and 5 use the v3 table layout, a part of it (version, headers, ranges "
+                       "tables, no identity) or only the schema-version table"]
 
 
 def replay(ck):
